@@ -12,6 +12,7 @@ PDF_FEATURES = {
     "multi-image-pages": "one image on each of three pages (numbering must run 1..n) (twin: three images on one page)",
     "image-only-page": "a page that has an image but no text (twin: image and a text line)",
     "empty-page": "a page with an empty content stream (twin: one text line)",
+    "shared-image-xobject": "one image XObject (a logo) referenced from the resources of every page and drawn on each, next to pictures of the page's own (twin: one object per page holding the same bytes)",
     "shared-content-stream": "stamped / mail-merge layout: every page's /Contents is the same object 'q /Fm0 Do Q' and each page binds /Fm0 to its own form XObject holding that page's text (twin: one such content stream per page)",
 }
 
@@ -61,6 +62,7 @@ def make_pdf(pages: list[dict], info: dict | None = None) -> bytes:
     font = w.add(b"<< /Type /Font /Subtype /Type1 /BaseFont /Helvetica /Encoding /WinAnsiEncoding >>")
     kids = []
     shared_cid = None
+    shared_imgs: dict = {}
     for pg in pages:
         xobjs = []
         content = bytearray()
@@ -83,7 +85,12 @@ def make_pdf(pages: list[dict], info: dict | None = None) -> bytes:
             elif chain == "flate":
                 import zlib
                 payload, filt = zlib.compress(im["data"]), b"[/FlateDecode /DCTDecode]"
-            oid = w.add(w.stream(b"/Type /XObject /Subtype /Image /Width %d /Height %d /ColorSpace /DeviceRGB /BitsPerComponent 8 /Filter " % (im["w"], im["h"]) + filt + im.get("extra", b""), payload))
+            if im.get("share") is not None and im["share"] in shared_imgs:
+                oid = shared_imgs[im["share"]]          # the same indirect object again, on another page
+            else:
+                oid = w.add(w.stream(b"/Type /XObject /Subtype /Image /Width %d /Height %d /ColorSpace /DeviceRGB /BitsPerComponent 8 /Filter " % (im["w"], im["h"]) + filt + im.get("extra", b""), payload))
+                if im.get("share") is not None:
+                    shared_imgs[im["share"]] = oid
             xobjs.append((b"Im%d" % k, oid))
             y -= 60
             content += b"q 50 0 0 50 50 %d cm /Im%d Do Q\n" % (max(y, 20), k)
@@ -126,7 +133,7 @@ def build_pdf(seed: int, feature: str | None = None, twin: bool = False):
     if feature:
         exp.features.add(feature if not twin else feature + "#twin")
     n_pages = rng.randint(1, 5)
-    if feature in ("multi-image-pages", "shared-content-stream"):
+    if feature in ("multi-image-pages", "shared-content-stream", "shared-image-xobject"):
         n_pages = max(3, n_pages)
     if feature in ("image-only-page", "empty-page"):
         n_pages = max(2, n_pages)
@@ -167,6 +174,18 @@ def build_pdf(seed: int, feature: str | None = None, twin: bool = False):
                     imgs = [img(), img(), img()]
             elif p < 3:
                 imgs = [img()]
+        elif feature == "shared-image-xobject":
+            if p == 0:
+                logo = img()
+                exp.images.pop()
+                logo["extra"] = b""
+            own = [img() for _ in range(rng.choice([0, 1, 1, 2]) if p != n_pages - 1 else 0)]
+            place = rng.randrange(len(own) + 1)
+            imgs = own[:place] + [dict(logo, share=None if twin else "logo")] + own[place:]
+            # ground truth in drawing order for this page
+            del exp.images[len(exp.images) - len(own):]
+            for im in imgs:
+                exp.images.append({"sha": sha1(im["data"]), "ctype": "image/jpeg", "w": im["w"], "h": im["h"], "unit": p + 1})
         elif feature == "image-only-page" and p == fpage:
             imgs = [img()]
             if not twin:
